@@ -22,6 +22,8 @@ os.environ["PYTHONWARNINGS"] = "ignore"
 VERBS = ("should", "should_only", "should_not")
 COLLISION_FREE = ["m0", "m1", "m2", "m3", "m4", "m5", "m6", "m7", "m8", "m9"]
 ADVERSARIAL = ["a", "ab", "a_b", "aa", "b", "ba", "a1", "_a", "A"]
+# large / unusual: 30 numbered names (m2 < m10 numerically, not lexicographically), non-ASCII identifiers, a very long name
+LARGE_POOL = ["m%d" % i for i in range(30)] + ["pkg_\u00e9", "\u00df_mod", "\u03b4elta", "long_" + "x" * 60, "Z9", "_"]
 
 
 # --------------------------------------------------------------------------
@@ -296,7 +298,8 @@ def spec_lines(nodes, E, Ss, verb, imp, exc, Os):
 def rand_tree(rng, pool, max_nodes=12, max_depth=4, root="r"):
     nodes = [root]
     for _ in range(rng.randint(2, max_nodes)):
-        p = rng.choice(nodes)
+        # deep trees: half of the time extend the module added last (chains reach max_depth)
+        p = nodes[-1] if max_depth > 4 and rng.random() < 0.5 else rng.choice(nodes)
         if p.count(".") >= max_depth - 1:
             p = root
         nodes.append(p + "." + rng.choice(pool))
@@ -312,11 +315,11 @@ def rand_edges(rng, nodes, k_max=8):
     return sorted(E)
 
 
-def pick_filters(rng, nodes, strict: bool, root="r"):
+def pick_filters(rng, nodes, strict: bool, root="r", kmax=3):
     cand = [n for n in nodes if n != root]
     if len(cand) < 2:
         return None
-    k1, k2 = rng.randint(1, 3), rng.randint(1, 3)
+    k1, k2 = rng.randint(1, kmax), rng.randint(1, kmax)
     for _ in range(20):
         pick = rng.sample(cand, min(len(cand), k1 + k2))
         if len(pick) < 2:
@@ -607,9 +610,13 @@ def gen_small_cases(tree_idx, relation_indices):
 
 def gen_random_cases(rng, n, strict, mode="direct", pools=(COLLISION_FREE, ADVERSARIAL)):
     cases = []
+    large = mode == "large"       # beyond the sizes of hand-written examples: up to 45 modules, 7 levels, 6 subjects x 6 objects, 30 imports
+    if large:
+        mode = "direct"
     while len(cases) < n:
-        pool = rng.choice(pools)
-        nodes = rand_tree(rng, pool, max_nodes=rng.choice([5, 8, 12]))
+        pool = LARGE_POOL if large else rng.choice(pools)
+        nodes = rand_tree(rng, pool, max_nodes=rng.choice([25, 35, 45]), max_depth=rng.choice([5, 7])) if large else \
+            rand_tree(rng, pool, max_nodes=rng.choice([5, 8, 12]))
         if mode == "scan":
             inner = {x for x in nodes if any(m.startswith(x + ".") for m in nodes)}
             leaves = [x for x in nodes if x not in inner]
@@ -620,11 +627,11 @@ def gen_random_cases(rng, n, strict, mode="direct", pools=(COLLISION_FREE, ADVER
                     E.add((a, b))
             edges = sorted(E)
         else:
-            edges = rand_edges(rng, nodes)
-        fp = pick_filters(rng, nodes, strict)
+            edges = rand_edges(rng, nodes, 30 if large else 8)
+        fp = pick_filters(rng, nodes, strict, kmax=6 if large else 3)
         if fp is None:
             continue
-        cases.append(dict(nodes=nodes, edges=edges, specs=all_shapes(*fp), mode=mode, tag=("rand", strict, mode)))
+        cases.append(dict(nodes=nodes, edges=edges, specs=all_shapes(*fp), mode=mode, tag=("rand", strict, "large" if large else mode)))
     return cases
 
 
